@@ -13,6 +13,7 @@ import (
 	"path/filepath"
 	"strings"
 	gotime "time"
+	_ "time/tzdata" // zone rules compiled in (the zone dimension must not depend on the machine)
 
 	"github.com/jotaen/klog/klog/app"
 	tf "github.com/jotaen/klog/klog/app/cli/terminalformat"
@@ -49,9 +50,22 @@ var zones = []*gotime.Location{gotime.UTC, gotime.FixedZone("UTC+2", 2*3600), go
 
 var zonesOff = os.Getenv("KV_ZONES") == "off"
 
+// Clock readings on these days are expressed in a zone that has a daylight-saving transition there (the day is 23 or
+// 25 hours long, "24 hours ago" is not "yesterday"): the day after the spring transition and the day of the autumn one.
+var dstDays = map[string]string{
+	"2024-04-01": "Europe/Berlin", "2024-10-27": "Europe/Berlin", "2024-10-28": "Europe/Berlin",
+	"2026-03-30": "Europe/Berlin", "2026-10-25": "Europe/Berlin",
+	"2024-03-11": "America/New_York", "2024-11-03": "America/New_York",
+}
+
 func zoneFor(now gotime.Time, key string) *gotime.Location {
 	if zonesOff || now.Location() != gotime.UTC {
 		return nil
+	}
+	if name, ok := dstDays[now.Format("2006-01-02")]; ok {
+		if loc, err := gotime.LoadLocation(name); err == nil {
+			return loc
+		}
 	}
 	h := fw.HashMix(fw.HashString(key), uint64(now.Unix()))
 	return zones[int(h%uint64(len(zones)))]
@@ -68,6 +82,12 @@ func rezoneOpts(o *Opts, key string) {
 	z := zoneFor(o.Now, key)
 	if z == nil {
 		return
+	}
+	// a reading that does not exist in the zone (skipped hour) would come out as another reading: keep UTC then
+	for _, t := range append([]gotime.Time{o.Now}, o.TickTimes...) {
+		if r := rezone(t, z); r.Hour() != t.Hour() || r.Minute() != t.Minute() || r.Day() != t.Day() {
+			return
+		}
 	}
 	o.Now = rezone(o.Now, z)
 	ticks := make([]gotime.Time, len(o.TickTimes))
